@@ -401,7 +401,7 @@ def work(item):
     if part[0] == "add":
         L = env.L
 
-        def prop(st, ta, tb, wa, wb):
+        def prop(st, ta, tb, wa, wb, tc=None, wc=0.5, wd=0.5, flip=False):
             st.ev()
             sa, sb = formulas.render(ta), formulas.render(tb)
             ca = L.fn["CompoundParser"](sa.encode(), None)
@@ -428,14 +428,43 @@ def work(item):
                     if set(fa) & set(fb) and set(fa) != set(fb):
                         st.nt_key("add", sa, sb)
                         st.sample("add", dict(case, elements=got_e), cap=2)
+                    if tc is not None:
+                        # the result is a composition like any other: used as an operand (either side) of a second combination, the same law
+                        # holds for what it contains - including elements that a weight of exactly 0 left with fraction 0
+                        sc = formulas.render(tc)
+                        cc = L.fn["CompoundParser"](sc.encode(), None)
+                        if cc:
+                            C = cc.contents
+                            fc = {C.Elements[i]: C.massFractions[i] for i in range(C.nElements)}
+                            fr = dict(zip(got_e, got_f))
+                            r2 = L.fn["add_compound_data"](C, wc, c, wd) if flip else L.fn["add_compound_data"](c, wd, C, wc)
+                            case2 = dict(case, then=dict(C=sc, wC=wc, w_first_result=wd, first_result_is="B" if flip else "A", first_result=dict(elements=got_e, fractions=got_f)))
+                            if not r2:
+                                out = ("add:null", case2, "a composition", None)
+                            else:
+                                c2 = r2.contents
+                                g_e = [c2.Elements[i] for i in range(c2.nElements)]
+                                g_f = [c2.massFractions[i] for i in range(c2.nElements)]
+                                e_e = sorted(set(fr) | set(fc))
+                                e_f = [wd * fr.get(z, 0.0) + wc * fc.get(z, 0.0) for z in e_e]
+                                if g_e != e_e:
+                                    out = ("add:elements", case2, e_e, g_e)
+                                elif any(not close(x, y) for x, y in zip(g_f, e_f)):
+                                    out = ("add:fractions", case2, e_f, g_f)
+                                else:
+                                    st.cls("add_chained")
+                                    if 0.0 in got_f:
+                                        st.cls("add_chained_zero_fraction_operand")
+                                L.fn["FreeCompoundData"](r2)
+                            L.fn["FreeCompoundData"](cc)
                 L.fn["FreeCompoundData"](r)
             else:
                 out = ("add:null", dict(A=sa, B=sb), "a composition", None)
             L.fn["FreeCompoundData"](ca)
             L.fn["FreeCompoundData"](cb)
             return out
-        w = hs.floats(0.01, 0.99)
-        k = hyp.run_property(st, "add", dict(ta=tree_st, tb=tree_st, wa=w, wb=w), prop, n, sv)
+        w = hs.one_of(hs.floats(0.01, 0.99), hs.floats(0.01, 0.99), hs.sampled_from([0.0, 1.0]))
+        k = hyp.run_property(st, "add", dict(ta=tree_st, tb=tree_st, wa=w, wb=w, tc=tree_st, wc=w, wd=w, flip=hs.booleans()), prop, n, sv)
         st.cls("examples_add", k)
         return st
     return st
